@@ -28,8 +28,14 @@ go test -vet=off -count=1 -timeout 300s "./$pkgdir/" -run 'Seed|seed|Demo' >>"$l
 # 3. full suite with patch but without the demo
 rm -f "$wt/$demo_path"
 go test -vet=off -count=1 -timeout 25m ./pkg/... ./apis/... ./cmd/... > "$log.suite" 2>&1; suite=$?
-fails=$(grep -E '^(FAIL|--- FAIL)' "$log.suite" | grep -v 'pkg/cli' | head -5)
-if [ $suite -ne 0 ] && [ -z "$fails" ]; then suite=0; fi   # pkg/cli tests are flaky on the original tree too
+fails=""
+if [ $suite -ne 0 ]; then
+  # some tests are flaky on the original tree too (BASELINE.json lists 4): re-run the failing packages twice
+  suite=0
+  for fp in $(grep -E '^FAIL\s+github.com' "$log.suite" | awk '{print $2}' | sed 's#github.com/furiko-io/furiko#.#'); do
+    go test -vet=off -count=1 -timeout 10m "$fp" >>"$log" 2>&1 || go test -vet=off -count=1 -timeout 10m "$fp" >>"$log" 2>&1 || { suite=1; fails="$fails $fp"; }
+  done
+fi
 echo "$id: demo_on_original=$orig build=$build demo_with_patch=$patched suite_with_patch=$suite $fails"
 if [ $orig -eq 0 ] && [ $build -eq 0 ] && [ $patched -ne 0 ] && [ $suite -eq 0 ]; then
   mkdir -p "$out"
